@@ -69,12 +69,12 @@ impl LuaPropertyIndex {
     ) -> Option<()> {
         let (_, property_id) = self.get_or_create_property(source_owner_id.clone())?;
         self.property_owners_map
-            .insert(same_property_owner_id, property_id);
+            .insert(same_property_owner_id.clone(), property_id);
 
-        self.in_filed_owner
-            .entry(file_id)
-            .or_default()
-            .insert(source_owner_id);
+        // both owners are entries of `property_owners_map`: `remove` must find both
+        let in_filed_owners = self.in_filed_owner.entry(file_id).or_default();
+        in_filed_owners.insert(source_owner_id);
+        in_filed_owners.insert(same_property_owner_id);
 
         Some(())
     }
